@@ -18,14 +18,16 @@ VARIABLES s,       \* the schema built so far (receiver of the next call)
           prev,    \* the receiver of the last call
           chain,   \* calls applied so far, including a refused last one
           last,    \* NoneOpt | Some([c |-> call, out |-> Apply outcome])
-          dead     \* the last call was refused
+          dead,    \* the last call was refused
+          t0       \* the type the chain started from (the | operator changes the receiver's type)
 
-vars == <<s, prev, chain, last, dead>>
+vars == <<s, prev, chain, last, dead, t0>>
 
 (***************************************************************************)
 (* The machine                                                             *)
 (***************************************************************************)
-Init == /\ s \in {Bare(t) : t \in Types}
+Init == /\ t0 \in Types
+        /\ s = Bare(t0)
         /\ prev = s
         /\ chain = <<>>
         /\ last = NoneOpt
@@ -38,10 +40,11 @@ Declare(c) ==
   /\ chain' = Append(chain, c)
   /\ last' = Some([c |-> c, out |-> r])
   /\ dead' = ~r.ok
+  /\ UNCHANGED t0
 
 Next == /\ ~dead
         /\ Len(chain) < Depth
-        /\ \E c \in Calls(s.t) : Declare(c)
+        /\ \E c \in CallsWithOr(s.t) : Declare(c)
 
 View == <<s, prev, last>>
 
